@@ -254,6 +254,7 @@ theorem step_sentWF (max : Nat) (cb : Cbs) (hcb : cb.Small) (s : Sess) (op : App
   | sendText bs => exact sendStep_sentWF s _ h
   | sendBinary bs => exact sendStep_sentWF s _ h
   | sendPing bs => exact sendStep_sentWF s _ trivial
+  | transportClosed => exact SentWF_nil
 
 theorem run_sentWF (max : Nat) (cb : Cbs) : ∀ (ops : List AppOp) (s : Sess), cb.Small → (∀ op ∈ ops, op.Small) →
     SentWF (run max cb s ops).2 := by
@@ -436,6 +437,11 @@ theorem cRun_sentWF (cfg : CCfg) : ∀ (ops : List COp) (s : CSess), cfg.cb.Smal
     | sendText bs => exact cSendStep_sentWF s _ hop
     | sendBinary bs => exact cSendStep_sentWF s _ hop
     | sendPing bs => exact cSendStep_sentWF s _ trivial
+    | disconnect c r =>
+      simp only [cStep, cDisconnect]
+      split
+      · exact cSendStep_sentWF s (.close c r) trivial
+      · exact CSentWF_nil
 
 /-- once the upgrade has completed it stays completed -/
 theorem cRun_upgraded (cfg : CCfg) : ∀ (ops : List COp) (s : CSess), CBounded cfg s → s.upgraded = true →
@@ -456,5 +462,6 @@ theorem cRun_upgraded (cfg : CCfg) : ∀ (ops : List COp) (s : CSess), CBounded 
     | sendText bs => simp only [cStep]; rw [(cSendStep_same s _).2.2.2.2.2.2]; exact h
     | sendBinary bs => simp only [cStep]; rw [(cSendStep_same s _).2.2.2.2.2.2]; exact h
     | sendPing bs => simp only [cStep]; rw [(cSendStep_same s _).2.2.2.2.2.2]; exact h
+    | disconnect c r => simp only [cStep, cDisconnect]; split <;> simpa [cSendClose] using h
 
 end Iora.Ws
